@@ -1,44 +1,50 @@
 # Top-level build of the verification framework (offline).
-#   make coq        full .vo build of the Coq development
-#   make modelrun   extraction + OCaml model runners  (modelrun/build/<model>[_spec])
-#   make harness    Rust implementation runner (implrun), debug profile, hooks on
+#   make coq                 full .vo build of the Coq development (coq/_CoqProject is regenerated from the tree)
+#   make modelrun            extraction + OCaml runner for every coq/Extract/<model>.v  -> modelrun/build/<model>
+#   make modelrun MODEL=cq   ... for one model only
+#   make harness             every Rust implementation runner (harness/src/bin/<model>.rs), debug profile, hooks on
+#   make harness MODEL=cq    ... one only
 SHELL := /bin/bash
 COQDIR := coq
 MR := modelrun/build
 JOBS ?= 16
+export CARGO_NET_OFFLINE := true
+export RUSTFLAGS := --cfg tokio_unstable --cfg petrichorit_des_verif
 
-# model name : extracted module : entry points (name=function)
-MODELS := cq
+ALLMODELS := $(patsubst coq/Extract/%.v,%,$(wildcard coq/Extract/*.v))
+MODELS := $(if $(MODEL),$(MODEL),$(ALLMODELS))
+VSRC := $(shell find coq -name '*.v' -not -path 'coq/Extract/*' | LC_ALL=C sort)
 
-.PHONY: all coq modelrun harness clean
+.PHONY: all coq modelrun harness clean coqproject
 all: coq modelrun harness
 
-$(COQDIR)/Makefile: $(COQDIR)/_CoqProject
-	cd $(COQDIR) && coq_makefile -f _CoqProject -o Makefile
+# _CoqProject lists every .v below coq/ except the extraction scripts; rewritten only when the list changes
+coqproject:
+	@{ echo "-Q . DesVerif"; \
+	   echo "-arg -w -arg -notation-overridden,-deprecated-hint-without-locality,-deprecated-instance-without-locality"; \
+	   cd $(COQDIR) && find . -name '*.v' -not -path './Extract/*' | sed 's#^\./##' | LC_ALL=C sort; } > $(COQDIR)/_CoqProject.new
+	@if cmp -s $(COQDIR)/_CoqProject.new $(COQDIR)/_CoqProject; then rm $(COQDIR)/_CoqProject.new; \
+	 else mv $(COQDIR)/_CoqProject.new $(COQDIR)/_CoqProject; cd $(COQDIR) && coq_makefile -f _CoqProject -o Makefile; fi
+	@test -f $(COQDIR)/Makefile || (cd $(COQDIR) && coq_makefile -f _CoqProject -o Makefile)
 
-coq: $(COQDIR)/Makefile
-	$(MAKE) -C $(COQDIR) -j$(JOBS)
+coq: coqproject
+	$(MAKE) -C $(COQDIR) -j$(JOBS) $(COQTARGETS)
 
-# $(call mkrunner,model,Module,entry,exe)
-define mkrunner
-	sed -e 's/MODEL/$(2)/g' -e 's/ENTRY/$(3)/g' modelrun/driver.ml.in > $(MR)/main_$(4).ml
-	cd $(MR) && ocamlfind ocamlopt -w -a -O2 $(1).mli $(1).ml main_$(4).ml -o $(4) 2>/dev/null || \
-	  (cd $(MR) && ocamlfind ocamlopt -w -a $(1).mli $(1).ml main_$(4).ml -o $(4))
-endef
-
-$(MR)/cq.ml: coq/Extract/CQ.v coq/CQueue/Model.vo coq/CQueue/Spec.vo
-	mkdir -p $(MR) && cd $(MR) && coqc -Q ../../coq DesVerif ../../coq/Extract/CQ.v >/dev/null && rm -f CQ.vo CQ.glob .CQ.aux
-$(MR)/cq: $(MR)/cq.ml modelrun/driver.ml.in
-	$(call mkrunner,cq,Cq,run,cq)
-	$(call mkrunner,cq,Cq,sp_run,cq_spec)
-
-coq/CQueue/Model.vo coq/CQueue/Spec.vo: coq
+# extraction: coq/Extract/<m>.v must write "<m>.ml" and export a function `run : list N -> list N`
+$(MR)/%.ml: coq/Extract/%.v $(VSRC)
+	@mkdir -p $(MR)
+	cd $(MR) && coqc -Q ../../coq DesVerif -w -notation-overridden ../../coq/Extract/$*.v >/dev/null
+$(MR)/%: $(MR)/%.ml modelrun/driver.ml.in
+	m=$*; M=$$(echo $${m:0:1} | tr a-z A-Z)$${m:1}; \
+	sed -e "s/MODEL/$$M/g" -e 's/ENTRY/run/g' modelrun/driver.ml.in > $(MR)/main_$*.ml && \
+	cd $(MR) && ocamlfind ocamlopt -w -a $*.mli $*.ml main_$*.ml -o $*
+.PRECIOUS: $(MR)/%.ml
 
 modelrun: $(addprefix $(MR)/,$(MODELS))
 
 harness:
-	cd harness && CARGO_NET_OFFLINE=true RUSTFLAGS="--cfg tokio_unstable --cfg petrichorit_des_verif" cargo build --offline 2>&1 | tail -3
+	cd harness && cargo build --offline $(if $(MODEL),--bin $(MODEL),--bins) 2>&1 | grep -E "^(error|warning: unused)|Finished|panicked" | head -40; exit $${PIPESTATUS[0]}
 
 clean:
 	-$(MAKE) -C $(COQDIR) clean
-	rm -rf $(MR) harness/target
+	rm -rf $(MR) harness/target work
